@@ -351,6 +351,27 @@ pub const ENC_FORMS: &[(&str, EncF)] = &[
         e.vartime_compress().serialize_compressed(&mut v).unwrap();
         v
     }),
+    // the same through a writer that accepts only a few bytes per call
+    ("CanonicalSerialize E (3-byte writes)", |e| {
+        let mut w = ShortWriter::new(3);
+        e.serialize_compressed(&mut w).unwrap();
+        w.buf
+    }),
+    ("CanonicalSerialize A (1-byte writes)", |e| {
+        let mut w = ShortWriter::new(1);
+        aff(e).serialize_compressed(&mut w).unwrap();
+        w.buf
+    }),
+    ("CanonicalSerialize Encoding (31-byte writes)", |e| {
+        let mut w = ShortWriter::new(31);
+        e.vartime_compress().serialize_compressed(&mut w).unwrap();
+        w.buf
+    }),
+    ("CanonicalSerialize (E, E) first item (5-byte writes)", |e| {
+        let mut w = ShortWriter::new(5);
+        (e, Element::GENERATOR).serialize_compressed(&mut w).unwrap();
+        w.buf[..32.min(w.buf.len())].to_vec()
+    }),
     ("Debug E", |e| hex_of_fmt(&format!("{:?}", e))),
     ("Display E", |e| hex_of_fmt(&format!("{}", e))),
     ("Debug A", |e| hex_of_fmt(&format!("{:?}", aff(e)))),
@@ -423,6 +444,28 @@ pub const DEC32_FORMS: &[(&str, DecF)] = &[
         Encoding::deserialize_compressed(b)
             .map_err(|_| "InvalidEncoding".to_string())
             .and_then(|e| e.vartime_decompress().map_err(err_name))
+    }),
+    // the same stream entry points fed by a reader that returns short reads (1 and 7 bytes at a time)
+    ("CanonicalDeserialize E (1-byte reads)", |b| {
+        Element::deserialize_compressed(Chunked::new(b, 1)).map_err(|_| "InvalidEncoding".to_string())
+    }),
+    ("CanonicalDeserialize A (7-byte reads)", |b| {
+        AffinePoint::deserialize_compressed(Chunked::new(b, 7))
+            .map(el)
+            .map_err(|_| "InvalidEncoding".to_string())
+    }),
+    ("CanonicalDeserialize Encoding (1-byte reads)", |b| {
+        Encoding::deserialize_compressed(Chunked::new(b, 1))
+            .map_err(|_| "InvalidEncoding".to_string())
+            .and_then(|e| e.vartime_decompress().map_err(err_name))
+    }),
+    ("CanonicalDeserialize (E, E) second item (5-byte reads)", |b| {
+        // two items from one fragmented stream: the first is the generator's encoding, the second the input
+        let mut buf = Element::GENERATOR.vartime_compress().0.to_vec();
+        buf.extend_from_slice(b);
+        <(Element, Element)>::deserialize_compressed(Chunked::new(&buf, 5))
+            .map(|t| t.1)
+            .map_err(|_| "InvalidEncoding".to_string())
     }),
 ];
 #[cfg(not(feature = "ark"))]
@@ -1749,7 +1792,8 @@ pub fn record(suite: &str, n: usize, seed: u64, arg: &str, out: &mut dyn Write) 
                 let b: Vec<u8> = serde_json::from_value(v["b"].clone()).expect("bytes");
                 let kind = v["kind"].as_str().unwrap_or("");
                 let edge = kind == "edge_valid" || kind == "valid" || kind == "limb";
-                let reps = if edge { DEC32_FORMS.len() + DECSLICE_FORMS.len() } else { 1 };
+                // every decoding entry point for everything but the 1536 single-bit flips (one rotating entry each)
+                let reps = if edge || kind != "bitflip" { DEC32_FORMS.len() + DECSLICE_FORMS.len() } else { 1 };
                 for _ in 0..reps {
                     let j = m.rot(DEC32_FORMS.len() + DECSLICE_FORMS.len());
                     let f = m.rot(ENC_FORMS.len());
